@@ -20,10 +20,18 @@ CLAIMS = {
   "For each of the 7 term kinds, all parameter values and all positions off the stated singular sets: the energy model equals the theory document's closed form (in independently written spec geometry), every one of the 6/9/12 translated gradient slots equals the exact derivative of that energy (per-slot identity tangent = gradient program, then HasDerivAt), and no other slot is written, for any index assignment inside a larger array. Gradient programs are re-translated from the Rust add_gradient bodies on every run and the proofs re-checked; the energy model and the translation are validated bit for bit against the Rust functions.",
   TB + "Hand energy model tied bitwise to the Rust energy functions. Real-number reading of f64 code. Torsion proved off the atan2 branch cut; repulsion exponent a natural number.",
   "Lean 4 proof (Mathlib: HasDerivAt, field_simp/ring identities per slot) over code re-translated each run + bitwise translation validation", "DESIGN.md §5 C02"),
+ "C04": ("proof",
+  "PARTIAL. Proved for all answer histories on the optimiser model: Molecule::optimise changes only the coordinates (frame); a start meeting the convergence criterion is returned unchanged bit for bit; the energies the optimiser remembers are never rising; one descent step with alpha*L <= 2 does not raise an L-smooth energy (reals). NOT proved: the unconditional 'never higher' clause on UFF/RB (floating-point trajectory of a non-convex function; the optimiser is blind to the energy after five evaluations per restart) — explored on the real optimiser over generated molecules inside the stated domain, with before/after snapshots of atoms, connectivity and terms.",
+  TB + "Modelled: optimiser loop (recorded-history correspondence). The energy clause is exploration only; collinear-centre NaN is a recorded known finding.",
+  "Lean 4 proof of frame/fixed-point/monotone-history/descent-step on the optimiser model + search on the real optimiser for the energy clause", "DESIGN.md §5 C04"),
  "C05": ("proof",
   "For every answer list (hence every force field behind the trait, stateful or NaN-answering ones included), every start, step length and budget, over an arbitrary scalar: the passes form a Walk — each gradient request is at the previous geometry moved against the previous gradient by the one step length in force, or at the input geometry with the step length halved; the step length is only ever kept or halved; at most maxIter gradient requests; the run ends early exactly when the last gradient met the convergence test and never continues past one; the returned coordinates are the last pass's. Proved by induction over the loop fuel on the hand model, which reproduces recorded request histories of the real optimiser bit for bit.",
   TB + "Modelled: the optimiser loop (corresponded on recorded histories incl. synthetic force fields). Real-arithmetic reading of the convergence measure for n>0.",
   "Lean 4 proof (induction over loop fuel, all answer histories, abstract scalar) + bit-exact request-history correspondence", "DESIGN.md §5 C05"),
+ "C07": ("proof",
+  "For every finite history of energy/gradient requests at arbitrary geometries (which is what numerical-gradient and optimise requests amount to), over an arbitrary scalar and arbitrary term semantics: the answers to a further energy / gradient request are the pure functions of terms and geometry (the buffer's contents never matter, only its length, which is invariant), asking twice gives the same gradient, every answer in the history is the pure value; a variant without the zeroing step is refuted by a two-request witness. The model object (started with a dirty buffer) reproduces recorded answer sequences of real UFF/RB objects bit for bit, and each real answer is compared with a fresh object's.",
+  TB + "Modelled: Forcefield::energy/gradient bodies (corresponded on histories). &[Point] immutability is a type-level fact.",
+  "Lean 4 proof (invariant over request histories, abstract scalar/terms) + bit-exact history correspondence + fresh-object oracle", "DESIGN.md §5 C07"),
  "C09": ("proof",
   "For every atom count, every distance predicate, every candidate order and every cap function: perceived bonds join distinct atoms within bonding distance, no pair twice, degree ≤ cap, and a pair within distance left unbonded has a saturated end (maximality); orders assignment keeps the pairs. Proved by loop invariants on the hand model of add_bonds/add_bond; the model (with candidate lists computed at f64 as the source does) is tied to the code by correspondence on crowded, tied, coincident and threshold geometries over all elements.",
   TB + "Modelled: perception loops (corresponded). f64 distance predicate evaluated by the driver.",
